@@ -20,6 +20,7 @@ EXPLANATION = (
     "arrival, byte-offset fault injection. Observation (not a finding, outside the quantifier): the async and WebSocket "
     "fail_all_pending take the writer lock before draining, so a writer stalled on a full socket delays failing the waiters."
     " (late-response-only-misses-the-lookup, shared with C04) a late response is discarded only by missing the pending lookup - nothing filters responses in front of it; the guard's Drop adds to no collection."
+    ' Guards that travel through a slot value and a vector of slots still belong to the coroutine frame as long as every guard-carrying value only moves between locals, collection locals and mem::drop (forget, leak, spawn, send or any non-std callee ends that); for a burst writer no receiver is polled on a path that left a write of the burst through its Err edge.'
 )
 ASSUMPTIONS = ["dropping an mpsc/oneshot Sender wakes its receiver with a Disconnected/RecvError", "tokio::spawn tasks run to completion or are dropped with the runtime"]
 
